@@ -548,7 +548,7 @@ MANIFEST = {
 
 def run(ctx):
     ctx.enumerate("view", _fixed_cases(), name="fixed-scenarios", exhaustive=False)
-    ctx.search("view", cases(), quick=1100, thorough=4000)
+    ctx.search("view", cases(), quick=1100, thorough=3000)
 
 
 MUTANTS = [
